@@ -534,6 +534,39 @@ def case_random(ctx, kind, start, rseed, count, maxlen):
         run_history(ctx, kind, start, ops)
 
 
+def case_two_objects(ctx, kind, start, rseed, count, maxlen):
+    """Two graphs of the same class alive at the same time, edited alternately: each one's views must follow its own
+    insertions only (class-level or module-level state shared between instances shows here and nowhere else)."""
+    install_invariants()
+    r = ctx.rng("c16two", kind, tuple(start), rseed)
+    for _ in range(count):
+        before = len(_installed["failures"])
+        objs = [make(kind, start), make(kind, start)]
+        done = []
+        ok = True
+        for _ in range(r.randint(2, maxlen)):
+            k = r.randrange(2)
+            G, S = objs[k]
+            op = random_op(r, kind, S)
+            done.append((k, op))
+            w = "two %s%r objects alive, after %r" % (kind, tuple(start), done[-8:])
+            apply(ctx, G, S, op, w)
+            ctx.count("interleaved_ops_on_two_objects")
+            for j, (Gj, Sj) in enumerate(objs):
+                if not compare(ctx, Gj, Sj, w + " (object %d)" % j):
+                    ok = False
+            if not ok:
+                break
+        if ok:
+            for j, (Gj, Sj) in enumerate(objs):
+                nx_view(ctx, Gj, Sj, "two %s objects alive, at the end (object %d)" % (kind, j))
+        ctx.counters["invariant_evaluations"] = _installed["evals"]
+        for f in _installed["failures"][before:]:
+            ctx.violation("%s:class-invariant" % kind, "two objects alive, after %r: %s" % (done[-8:], f))
+        ctx.judged(("two", kind, tuple(start), tuple(map(repr, done))), nontrivial=any(len(S.E) for _, S in objs),
+                   sample={"class": kind, "start": start, "interleaved_history": [list(map(repr, d)) for d in done[:10]]})
+
+
 def case_repo_tests(ctx):
     """The repository's own tests with the class invariants installed (thorough tier)."""
     import json
@@ -585,6 +618,10 @@ def workload(tier, seed):
                ("complete-bipartite", ["CompleteBipartiteGraph", 0, 2])]
     if tier != "quick":
         yield "repo_tests", {}
+    for kind, start in starts:
+        if sum(x for x in start[1:] if isinstance(x, int)) >= 3:
+            for b in range(1 if tier == "quick" else 10):
+                yield "two_objects", {"kind": kind, "start": start, "rseed": seed * 1000 + b, "count": 20, "maxlen": 40}
     batches = 2 if tier == "quick" else 40
     for kind, start in starts:
         for b in range(batches):
